@@ -1047,11 +1047,13 @@ class Sequence(C13Entry):
                 ent = self.base[st["op"]]
                 env.copy = bool(st.get("copy"))
                 ENV[0] = env
-                o = ent.impl(st["case"])
+                # the probes run BEFORE the step's own calls, so that the last calls made on the HTM object before the next step
+                # are those of this step on the shared buffers (a probe in between would overwrite a one-slot cache and hide it)
                 try:
                     alias = self._alias_probe(st, env)
                 except Exception as e:  # noqa  (a valid call raised: a failing input of this step)
                     alias = "the repeated call raised %s: %s" % (type(e).__name__, str(e)[:150])
+                o = ent.impl(st["case"])
                 ENV[0] = FreshEnv()
                 o2 = ent.impl(st["case"])
                 if alias is not None:
@@ -1077,6 +1079,13 @@ class Sequence(C13Entry):
         if op == "lookup_id":
             h = env.h(min(c.get("maxdepth", MAXDEPTH), 6))
             ra, dec = np.array([p[0] for p in c["pts"]]), np.array([p[1] for p in c["pts"]])
+            from esutil import htm as _htm
+            h.lookup_id(ra, dec)
+            ra[:] = np.roll(ra, 1)                     # in-place change of the same arrays, same call again
+            dec[:] = dec[::-1].copy()
+            second, alone = h.lookup_id(ra, dec), _htm.HTM(h.get_depth()).lookup_id(ra.copy(), dec.copy())
+            if list(second) != list(alone):
+                return "lookup_id: call, in-place change of the same arrays, same call again: %s, fresh object: %s" % (second[:5], alone[:5])
             r1 = h.lookup_id(ra, dec)
             keep = r1.copy()
             r1[:] = -1
@@ -1099,6 +1108,27 @@ class Sequence(C13Entry):
             id2 = h.lookup_id(a[5], a[6])
             if int(id2.max() - id2.min()) > 600000:
                 return None
+            # in-place change: call -> the SAME position arrays of the second list get other values (identity and size kept) ->
+            # same call again, nothing in between; the second answer must be that of a fresh HTM object on the new contents
+            from esutil import htm as _htm
+            ra2b, dec2b = a[5].copy(), a[6].copy()
+            first = h.bincount(a[0], a[1], a[2], a[3], a[4], ra2b, dec2b, scale=sc, getbins=False)
+            ra2b[:] = np.roll(ra2b, 1)                 # ra of the neighbour, dec kept: another point set of the same size
+            dec2b[:] = dec2b[::-1].copy()
+            second = h.bincount(a[0], a[1], a[2], a[3], a[4], ra2b, dec2b, scale=sc, getbins=False)
+            alone = _htm.HTM(c["depth"]).bincount(a[0], a[1], a[2], a[3], a[4], ra2b.copy(), dec2b.copy(), scale=sc, getbins=False)
+            if list(second) != list(alone):
+                return ("bincount: call, in-place change of the same ra2/dec2 arrays, same call again: %s, but a fresh HTM object returns %s "
+                        "for the new contents (first call: %s)" % (list(second), list(alone), list(first)))
+            ra1b, dec1b = a[3].copy(), a[4].copy()
+            h.bincount(a[0], a[1], a[2], ra1b, dec1b, a[5], a[6], scale=sc, getbins=False)
+            ra1b[:] = np.roll(ra1b, 1) if ra1b.size > 1 else ra1b + 0.5 * (a[1] if sc is None else 0.0)
+            dec1b[:] = dec1b[::-1].copy()
+            second = h.bincount(a[0], a[1], a[2], ra1b, dec1b, a[5], a[6], scale=sc, getbins=False)
+            alone = _htm.HTM(c["depth"]).bincount(a[0], a[1], a[2], ra1b.copy(), dec1b.copy(), a[5], a[6], scale=sc, getbins=False)
+            if list(second) != list(alone):
+                return ("bincount: call, in-place change of the same ra1/dec1 arrays, same call again: %s, but a fresh HTM object returns %s"
+                        % (list(second), list(alone)))
             lo1, up1, n1 = h.bincount(*a, scale=sc, htmid2=id2)           # the returned ids of lookup_id are handed back as htmid2
             keep = [x.copy() for x in (lo1, up1, n1, id2)]
             lo1[:] = -1.0
